@@ -62,7 +62,16 @@ def lean_requests(c):
         r = ex.lean(c['inst'], own['ok'])
     except Exception:
         r = None
-    return [r] if r is not None else []
+    reqs = [r] if r is not None else []
+    # the answer-key printers themselves (Gamba/Model/Keys.lean)
+    c['_key'] = False
+    if r is not None and c['name'] == 'cfg_cyk_matrix':
+        reqs.append({'op': 'cfg_print_cyk', 'G': c['inst']['G'], 'w': list(c['inst']['w'])})
+        c['_key'] = True
+    elif r is not None and c['name'] in ('cfg_leftmost_derivation', 'cfg_rightmost_derivation'):
+        reqs.append({'op': 'cfg_derivation_key', 'G': c['inst']['G'], 'w': list(c['inst']['w']), 'leftmost': 'leftmost' in c['name']})
+        c['_key'] = True
+    return reqs
 
 
 def finding_key(c, own):
@@ -94,6 +103,8 @@ def judge(ctx, c, answers):
         la = answers[0]
         if la.get('ok') is not True:
             ctx.violation('correspondence:' + ex.name, {'case': sub, 'answer': own['ok'], 'impl': verdict, 'model': la}, no_input=True)
+    if c.get('_key') and len(answers) > 1 and answers[1].get('ok') != own['ok']:
+        ctx.violation('correspondence:answer-key-printer(%s)' % ex.name, {'case': sub, 'impl': own['ok'], 'model': answers[1]}, no_input=True)
     ctx.count('%s:%s' % (ex.name, verdict))
     ctx.record('c13/' + core.digest(sub), verdict)
     ctx.case({'name': c['name'], 'inst': c['inst']}, True)
